@@ -866,7 +866,9 @@ func (s *scanner) scanNumber() float64 {
 		}
 	}
 	v, err := strconv.ParseFloat(s.text[i:i+c], 64)
-	if err != nil {
+	// a literal beyond the float64 range is Infinity (round to nearest), as
+	// it is for number('...') of the same digits.
+	if err != nil && !errors.Is(err, strconv.ErrRange) {
 		panic(fmt.Errorf("xpath: scanNumber parse float got error: %v", err))
 	}
 	return v
